@@ -233,6 +233,11 @@ class Run:
         return d
 
     def judge(self, outcome):
+        if outcome == 'caller-killed':
+            k = C.caller_killed_by_other(self.sim)
+            if k is not None:
+                return [{'clause': 'constructor-returns', 'manifestation': f'calling-process-killed-by-signal-from:{k["tag"] or k["proc"]}:{k["role"]}',
+                         'detail': k, 'kind': 'server'}]
         if outcome in ('hang', 'time-cap', 'spin'):
             return [{'clause': 'constructor-returns', 'manifestation': f'workload-{outcome}', 'detail': self.sim.outcome_info}]
         return self.V
